@@ -72,7 +72,10 @@ def readInteger (s : List Char) (delims : List Char) : Option (List Char) × Sev
   let (sg, r) := splitSign cs
   let ds := r.takeWhile Char.isDigit
   let rest := r.dropWhile Char.isDigit
-  if ds.isEmpty then (none, checkRemaining r delims) else (some (sg ++ ds), checkRemaining rest delims)
+  if ds.isEmpty then
+    -- extraction failed: "Invalid integer value" unless there was nothing but white space
+    (none, Sev.greater (if cs.isEmpty then .null else .warning) (checkRemaining r delims))
+  else (some (sg ++ ds), checkRemaining rest delims)
 
 /-- mantissa/exponent scan shared by `ReadReal` (hand-written scan, then `istringstream >> double` on the copy) -/
 structure RealScan where
@@ -111,7 +114,9 @@ def readReal (s : List Char) (delims : List Char) : Option (List Char) × Sev :=
   let sc := scanReal s
   if sc.mantDigits > 0 && sc.expOk then
     (some sc.buf, Sev.greater sc.sev (checkRemaining sc.rest delims))
-  else (none, checkRemaining sc.rest delims)
+  else
+    -- characters taken but not a number: "Invalid real value"; nothing taken: no complaint of its own
+    (none, Sev.greater (if sc.buf.isEmpty then .null else .warning) (checkRemaining sc.rest delims))
 
 /-- `ReadNumber( val, const char *, err, delims )`: `in >> double` (sign, digits, optional fraction, optional exponent) -/
 def readNumber (s : List Char) (delims : List Char) : Option (List Char) × Sev :=
@@ -122,7 +127,8 @@ def readNumber (s : List Char) (delims : List Char) : Option (List Char) × Sev 
   let (dot, d2, r2) := match r1 with
     | '.' :: t => (['.'], t.takeWhile Char.isDigit, t.dropWhile Char.isDigit)
     | _ => ([], [], r1)
-  if d1.isEmpty && d2.isEmpty then (none, checkRemaining r1 delims)
+  if d1.isEmpty && d2.isEmpty then
+    (none, Sev.greater (if cs.isEmpty then .null else .warning) (checkRemaining r1 delims))
   else (some (sg ++ d1 ++ dot ++ d2), checkRemaining r2 delims)   -- an exponent after the mantissa is not modelled (C09)
 
 /-- the outcome of handing a filler to its reader: value assigned (as token text) and severity of the discarded `err` -/
@@ -147,9 +153,11 @@ def attrRead (strict : Bool) (a : AttrD) (t : Tok) : Sev × Val :=
     | _ => (Sev.greater sevDerivedBad .warning, .derived)
   else
     match t with
-    | .missing _ =>
-      if a.optional then (sevNullable, .null)
-      else if !strict then
+    | .missing dollar =>
+      -- `$` is consumed and CheckRemainingInput runs; `Tok.missing` stands for a `$` (or nothing) directly followed by
+      -- its delimiter, for which CheckRemainingInput finds nothing
+      if a.optional then ((match sevNullableOverride with | some s => s | none => Sev.null), .null)
+      else if !strict && (match lenientOnlyFor with | none => true | some c => dollar && c = consumedNullChar) then
         match fillerFor a.kind with
         | none => (sevLenientOtherKind, .null)
         | some (filler, reader, arg) =>
